@@ -17,9 +17,11 @@ Rec == ndJsonDeserialize(IOEnv.TRACE)
 
 VARIABLES l,      \* next line of Rec
           st,     \* abstract state
-          nviol   \* number of violations printed so far
+          nviol,  \* number of violations printed so far
+          cov     \* vacuity guard: how often each predicate had a non-trivial antecedent
+                  \*   cov.ev[k] = events, cov.tr[k] = distinct traces, cov.cur = flags of this trace
 
-vars == <<l, st, nviol>>
+vars == <<l, st, nviol, cov>>
 
 ToSets(ss) == [ i \in DOMAIN ss |-> Range(ss[i]) ]
 
@@ -303,11 +305,83 @@ Apply(s, e) ==
          [] e.ev = "fresh_end"     -> OnFreshEnd(s, e)
          [] OTHER                  -> [st |-> s, v |-> <<>>]
 
+---------------------------------------------------------------------------
+(* Coverage flags of an event (evaluated in the state BEFORE the event).    *)
+RunFlags(s, R, f) ==
+  LET o == Obs(s, R) IN
+     {"handout"}
+  \cup (IF InFlight(o) # {} THEN {"handout_concurrent"} ELSE {})
+  \cup (IF \E g \in InFlight(o) : <<f, g>> \in s.C \/ <<g, f>> \in s.C THEN {"handout_related_inflight"} ELSE {})
+  \cup (IF ConflictPairs(s.n, s.reads, s.writes) # {} THEN {"handout_conflict_graph"} ELSE {})
+  \cup (IF \E a \in 1..s.n : DirBefore(s.UC, o.order, a, f) THEN {"handout_dependent"} ELSE {})
+  \cup (IF R.sig \/ R.cfg.pre_signal THEN {"handout_after_signal"} ELSE {})
+  \cup (IF R.failed # {} THEN {"handout_after_failure"} ELSE {})
+  \cup (IF R.cfg.limit >= 1 THEN {"handout_limited"} ELSE {})
+  \cup (IF o.order = "rev" THEN {"handout_reverse"} ELSE {})
+
+Flags(s, e) ==
+  IF "hook" \in DOMAIN e THEN {"hook_event"}
+  ELSE CASE e.ev = "start" /\ HasRun(s, e) -> RunFlags(s, s.runs[e.run], e.f)
+         [] e.ev = "spoll" /\ HasRun(s, e) ->
+              LET R == s.runs[e.run] IN
+              IF e.res = "item" /\ e.f # 0 THEN RunFlags(s, R, e.f) \cup {"stream_item"}
+              ELSE IF e.res = "pending"
+                   THEN {"spoll_pending"} \cup (IF Range(R.started) # 1..s.n THEN {"stall_check_nontrivial"} ELSE {})
+                   ELSE {"stream_end"}
+         [] e.ev = "drop_ref" /\ HasRun(s, e) ->
+              {"drop_ref"} \cup (IF s.runs[e.run].pendingOpen THEN {"dropref_while_pending"} ELSE {})
+         [] e.ev = "poll" /\ HasRun(s, e) ->
+              LET R == s.runs[e.run]  o == Obs(s, R) IN
+              IF e.res = "pending" /\ ~e.woken
+              THEN {"idle"} \cup (IF C06_Applies(o) /\ Range(R.started) # 1..s.n THEN {"idle_eager_nontrivial"} ELSE {})
+              ELSE {"poll"}
+         [] e.ev = "return" /\ HasRun(s, e) ->
+              LET R == s.runs[e.run]  o == Obs(s, R) IN
+                 {"return"}
+              \cup (IF R.failed # {} THEN {"return_failed"} ELSE {})
+              \cup (IF EffectiveInterruptPossible(o) THEN {"return_interruptible"} ELSE {})
+              \cup (IF Range(R.started) # 1..s.n THEN {"return_partial"} ELSE {})
+              \cup (IF o.control THEN {"return_control"} ELSE {})
+              \cup (IF Len(s.runs) > 1 THEN {"return_multi"} ELSE {})
+         [] e.ev = "build" ->
+                 {"build"}
+              \cup (IF ConflictPairs(s.n, s.reads, s.writes) # {} THEN {"build_conflict"} ELSE {})
+              \cup (IF \E i \in DOMAIN e.edges : e.edges[i][3] = "data" THEN {"build_data_edge"} ELSE {})
+              \cup (IF s.ue # <<>> THEN {"build_user_edges"} ELSE {})
+              \cup (IF s.n >= 8 THEN {"build_large"} ELSE {})
+         [] e.ev = "add_edge" ->
+                 {"edge_call"}
+              \cup (IF e.res = "cycle" THEN {"edge_cycle"} ELSE {})
+              \cup (IF EdgeIndexOf(s.ue, e.a, e.b) # 0 THEN {"edge_update"} ELSE {})
+         [] e.ev = "add_edges" -> {"edges_call"} \cup (IF e.res = "cycle" THEN {"edge_cycle"} ELSE {})
+         [] e.ev = "eq" -> {"eq"} \cup (IF e.res THEN {"eq_equal"} ELSE {"eq_unequal"})
+         [] e.ev = "seq" -> {"seq"} \cup (IF e.fail_at \in 1..s.n THEN {"seq_fail"} ELSE {})
+         [] e.ev = "graph_info" -> {"graph_info"}
+         [] e.ev = "fresh_end" -> {"fresh_compare"}
+         [] e.ev = "signal" -> {"signal"}
+         [] e.ev = "abort" -> {"abort"}
+         [] e.ev = "panic" -> {"panic"}
+         [] OTHER -> {}
+
+Bump(fn, keys) ==
+  [ k \in (DOMAIN fn) \cup keys |-> (IF k \in DOMAIN fn THEN fn[k] ELSE 0) + (IF k \in keys THEN 1 ELSE 0) ]
+
+Cov0 == [ ev |-> [k \in {} |-> 0], tr |-> [k \in {} |-> 0], cur |-> {} ]
+
+CovNext(c, s, e, last) ==
+  LET fl   == Flags(s, e)
+      ev2  == Bump(c.ev, fl)
+      \* a reset closes the previous trace: its flags are counted once
+      tr2  == IF e.ev = "reset" THEN Bump(c.tr, c.cur \cup {"traces"}) ELSE c.tr
+      cur2 == IF e.ev = "reset" THEN {} ELSE c.cur \cup fl
+      tr3  == IF last THEN Bump(tr2, cur2 \cup {"traces"}) ELSE tr2
+  IN [ ev |-> ev2, tr |-> tr3, cur |-> cur2 ]
+
 Report(s, line, v) ==
   \A i \in DOMAIN v :
     PrintT("VIOL " \o ToJson([p |-> v[i].p, scn |-> s.scn, line |-> line, msg |-> v[i].msg]))
 
-Init == l = 1 /\ st = St0 /\ nviol = 0
+Init == l = 1 /\ st = St0 /\ nviol = 0 /\ cov = Cov0
 
 Next ==
   /\ l <= Len(Rec)
@@ -315,6 +389,8 @@ Next ==
        /\ Report(IF Rec[l].ev = "reset" THEN r.st ELSE st, l, r.v)
        /\ st' = r.st
        /\ nviol' = nviol + Len(r.v)
+  /\ cov' = CovNext(cov, st, Rec[l], l = Len(Rec))
+  /\ (l = Len(Rec)) => PrintT("COV " \o ToJson([events |-> cov'.ev, traces |-> cov'.tr]))
   /\ l' = l + 1
 
 Spec == Init /\ [][Next]_vars
